@@ -16,6 +16,7 @@ mod c01;
 mod c02;
 mod c06;
 mod c07;
+mod c08;
 mod c11;
 mod c12;
 pub mod units;
@@ -66,6 +67,7 @@ fn main() {
         "c05" => (c05::gen, c05::exec),
         "c06" => (c06::gen, c06::exec),
         "c07" => (c07::gen, c07::exec),
+        "c08" => (c08::gen, c08::exec),
         "c11" => (c11::gen, c11::exec),
         "c12" => (c12::gen, c12::exec),
         "c13" => (c13::gen, c13::exec),
